@@ -823,27 +823,35 @@ Proof.
   rewrite !codons_chunks3, <- trunc3_firstn, chunks3_trunc3. destruct (f <? 0); reflexivity.
 Qed.
 
+Lemma window_eq {A} (t : list A) off :
+  0 <= off <= zlen t ->
+  firstn (Z.to_nat (3 * ((zlen t - off) / 3))) (skipn (Z.to_nat off) t)
+  = firstn (Z.to_nat (zlen (skipn (Z.to_nat off) t) - zlen (skipn (Z.to_nat off) t) mod 3)) (skipn (Z.to_nat off) t).
+Proof.
+  intros H. f_equal.
+  assert (Hsk : zlen (skipn (Z.to_nat off) t) = zlen t - off).
+  { unfold zlen. rewrite skipn_length. unfold zlen in *. lia. }
+  rewrite Hsk. lia.
+Qed.
+
 Lemma select_one_spec_lemma id aa st s allow_rc trim f :
   In (id, aa, st) new_codes -> canon_str s -> 2 < zlen s ->
   best_frame aa s allow_rc = Ok f ->
   select_translatable_one true aa s allow_rc trim
   = if trim then trim_spec (ncbi_tbl id) false (frame_window s f) else Some (frame_window s f).
 Proof.
-  intros Hin Hs Hl Hf. unfold select_translatable_one. cbv zeta. rewrite (degap_canon s Hs), Hf. cbv beta iota.
-  change dna_comp_old with (comp_table Old DNA). rewrite (rc_pure_canon Old s Hs).
-  set (t := if f <? 0 then rc_spec s else s).
-  assert (Ht : canon_str t) by (unfold t; destruct (f <? 0); [apply canon_rc|]; exact Hs).
-  assert (Hw : firstn (Z.to_nat (3 * ((zlen t - (Z.abs f - 1)) / 3))) (skipn (Z.to_nat (Z.abs f - 1)) t) = frame_window s f).
-  { unfold frame_window. cbv zeta. fold t. f_equal.
-    destruct (best_frame_spec_lemma id aa st s allow_rc f Hin Hs Hl Hf) as (Hr & _).
-    assert (Hlt : zlen t = zlen s) by (unfold t; destruct (f <? 0); [apply zlen_rc_spec|reflexivity]).
-    assert (Hsk : zlen (skipn (Z.to_nat (Z.abs f - 1)) t) = zlen t - (Z.abs f - 1)).
-    { unfold zlen. rewrite skipn_length. unfold zlen in *. lia. }
-    rewrite Hsk. lia. }
-  subst t. cbv beta in Hw. rewrite Hw. destruct trim; [|reflexivity].
-  set (t := if f <? 0 then rc_spec s else s) in *.
+  intros Hin Hs Hl Hf.
+  destruct (best_frame_spec_lemma id aa st s allow_rc f Hin Hs Hl Hf) as (Hr & _).
   assert (Hcw : canon_str (frame_window s f)).
-  { unfold frame_window. cbv zeta. fold t. apply canon_firstn, canon_skipn, Ht. }
-  destruct (trim_stop_codon_canon Old id aa st (frame_window s f) false Hin Hcw) as [Hts _].
-  destruct (trim_stop_codon true Old aa (frame_window s f) false); cbn [ropt] in Hts; exact Hts.
+  { unfold frame_window. cbv zeta. apply canon_firstn, canon_skipn. destruct (f <? 0); [apply canon_rc|]; exact Hs. }
+  assert (Hfinish : forall w, w = frame_window s f ->
+            (if trim then match trim_stop_codon true Old aa w false with Ok w' => Some w' | Err _ => None end else Some w)
+            = (if trim then trim_spec (ncbi_tbl id) false (frame_window s f) else Some (frame_window s f))).
+  { intros w ->. destruct trim; [|reflexivity].
+    destruct (trim_stop_codon_canon Old id aa st (frame_window s f) false Hin Hcw) as [Hts _].
+    destruct (trim_stop_codon true Old aa (frame_window s f) false); cbn [ropt] in Hts; exact Hts. }
+  unfold select_translatable_one. cbv zeta. rewrite (degap_canon s Hs), Hf. cbv beta iota.
+  change dna_comp_old with (comp_table Old DNA). rewrite (rc_pure_canon Old s Hs).
+  apply Hfinish. unfold frame_window. cbv zeta.
+  destruct (f <? 0) eqn:Ef; apply window_eq; rewrite ?zlen_rc_spec; lia.
 Qed.
